@@ -805,8 +805,11 @@ impl From<&Vec<ast::Ident>> for Identifier {
 }
 
 impl<'a> Visitor<'a, Result<Expr>> for TryIntoExprVisitor<'a> {
-    fn qualified_wildcard(&self, _idents: &'a Vec<ast::Ident>) -> Result<Expr> {
-        todo!()
+    fn qualified_wildcard(&self, idents: &'a Vec<ast::Ident>) -> Result<Expr> {
+        Err(Error::other(format!(
+            "Unsupported qualified wildcard: {}.*",
+            idents.iter().join(".")
+        )))
     }
 
     fn wildcard(&self) -> Result<Expr> {
@@ -852,7 +855,9 @@ impl<'a> Visitor<'a, Result<Expr>> for TryIntoExprVisitor<'a> {
             ast::BinaryOperator::Lt => Expr::lt(left, right),
             ast::BinaryOperator::GtEq => Expr::gt_eq(left, right),
             ast::BinaryOperator::LtEq => Expr::lt_eq(left, right),
-            ast::BinaryOperator::Spaceship => todo!(),
+            ast::BinaryOperator::Spaceship => {
+                return Err(Error::other(format!("Unsupported binary operator: {op}")))
+            }
             ast::BinaryOperator::Eq => Expr::eq(left, right),
             ast::BinaryOperator::NotEq => Expr::not_eq(left, right),
             ast::BinaryOperator::And => Expr::and(left, right),
@@ -861,51 +866,125 @@ impl<'a> Visitor<'a, Result<Expr>> for TryIntoExprVisitor<'a> {
             ast::BinaryOperator::BitwiseOr => Expr::bitwise_or(left, right),
             ast::BinaryOperator::BitwiseAnd => Expr::bitwise_and(left, right),
             ast::BinaryOperator::BitwiseXor => Expr::bitwise_xor(left, right),
-            ast::BinaryOperator::PGBitwiseXor => todo!(),
-            ast::BinaryOperator::PGBitwiseShiftLeft => todo!(),
-            ast::BinaryOperator::PGBitwiseShiftRight => todo!(),
-            ast::BinaryOperator::PGRegexMatch => todo!(),
-            ast::BinaryOperator::PGRegexIMatch => todo!(),
-            ast::BinaryOperator::PGRegexNotMatch => todo!(),
-            ast::BinaryOperator::PGRegexNotIMatch => todo!(),
-            ast::BinaryOperator::PGCustomBinaryOperator(_) => todo!(),
-            ast::BinaryOperator::PGExp => todo!(),
-            ast::BinaryOperator::DuckIntegerDivide => todo!(),
-            ast::BinaryOperator::MyIntegerDivide => todo!(),
-            ast::BinaryOperator::Custom(_) => todo!(),
-            ast::BinaryOperator::PGOverlap => todo!(),
-            ast::BinaryOperator::PGLikeMatch => todo!(),
-            ast::BinaryOperator::PGILikeMatch => todo!(),
-            ast::BinaryOperator::PGNotLikeMatch => todo!(),
-            ast::BinaryOperator::PGNotILikeMatch => todo!(),
-            ast::BinaryOperator::PGStartsWith => todo!(),
-            ast::BinaryOperator::Arrow => todo!(),
-            ast::BinaryOperator::LongArrow => todo!(),
-            ast::BinaryOperator::HashArrow => todo!(),
-            ast::BinaryOperator::HashLongArrow => todo!(),
-            ast::BinaryOperator::AtAt => todo!(),
-            ast::BinaryOperator::AtArrow => todo!(),
-            ast::BinaryOperator::ArrowAt => todo!(),
-            ast::BinaryOperator::HashMinus => todo!(),
-            ast::BinaryOperator::AtQuestion => todo!(),
-            ast::BinaryOperator::Question => todo!(),
-            ast::BinaryOperator::QuestionAnd => todo!(),
-            ast::BinaryOperator::QuestionPipe => todo!(),
+            ast::BinaryOperator::PGBitwiseXor => {
+                return Err(Error::other(format!("Unsupported binary operator: {op}")))
+            }
+            ast::BinaryOperator::PGBitwiseShiftLeft => {
+                return Err(Error::other(format!("Unsupported binary operator: {op}")))
+            }
+            ast::BinaryOperator::PGBitwiseShiftRight => {
+                return Err(Error::other(format!("Unsupported binary operator: {op}")))
+            }
+            ast::BinaryOperator::PGRegexMatch => {
+                return Err(Error::other(format!("Unsupported binary operator: {op}")))
+            }
+            ast::BinaryOperator::PGRegexIMatch => {
+                return Err(Error::other(format!("Unsupported binary operator: {op}")))
+            }
+            ast::BinaryOperator::PGRegexNotMatch => {
+                return Err(Error::other(format!("Unsupported binary operator: {op}")))
+            }
+            ast::BinaryOperator::PGRegexNotIMatch => {
+                return Err(Error::other(format!("Unsupported binary operator: {op}")))
+            }
+            ast::BinaryOperator::PGCustomBinaryOperator(_) => {
+                return Err(Error::other(format!("Unsupported binary operator: {op}")))
+            }
+            ast::BinaryOperator::PGExp => {
+                return Err(Error::other(format!("Unsupported binary operator: {op}")))
+            }
+            ast::BinaryOperator::DuckIntegerDivide => {
+                return Err(Error::other(format!("Unsupported binary operator: {op}")))
+            }
+            ast::BinaryOperator::MyIntegerDivide => {
+                return Err(Error::other(format!("Unsupported binary operator: {op}")))
+            }
+            ast::BinaryOperator::Custom(_) => {
+                return Err(Error::other(format!("Unsupported binary operator: {op}")))
+            }
+            ast::BinaryOperator::PGOverlap => {
+                return Err(Error::other(format!("Unsupported binary operator: {op}")))
+            }
+            ast::BinaryOperator::PGLikeMatch => {
+                return Err(Error::other(format!("Unsupported binary operator: {op}")))
+            }
+            ast::BinaryOperator::PGILikeMatch => {
+                return Err(Error::other(format!("Unsupported binary operator: {op}")))
+            }
+            ast::BinaryOperator::PGNotLikeMatch => {
+                return Err(Error::other(format!("Unsupported binary operator: {op}")))
+            }
+            ast::BinaryOperator::PGNotILikeMatch => {
+                return Err(Error::other(format!("Unsupported binary operator: {op}")))
+            }
+            ast::BinaryOperator::PGStartsWith => {
+                return Err(Error::other(format!("Unsupported binary operator: {op}")))
+            }
+            ast::BinaryOperator::Arrow => {
+                return Err(Error::other(format!("Unsupported binary operator: {op}")))
+            }
+            ast::BinaryOperator::LongArrow => {
+                return Err(Error::other(format!("Unsupported binary operator: {op}")))
+            }
+            ast::BinaryOperator::HashArrow => {
+                return Err(Error::other(format!("Unsupported binary operator: {op}")))
+            }
+            ast::BinaryOperator::HashLongArrow => {
+                return Err(Error::other(format!("Unsupported binary operator: {op}")))
+            }
+            ast::BinaryOperator::AtAt => {
+                return Err(Error::other(format!("Unsupported binary operator: {op}")))
+            }
+            ast::BinaryOperator::AtArrow => {
+                return Err(Error::other(format!("Unsupported binary operator: {op}")))
+            }
+            ast::BinaryOperator::ArrowAt => {
+                return Err(Error::other(format!("Unsupported binary operator: {op}")))
+            }
+            ast::BinaryOperator::HashMinus => {
+                return Err(Error::other(format!("Unsupported binary operator: {op}")))
+            }
+            ast::BinaryOperator::AtQuestion => {
+                return Err(Error::other(format!("Unsupported binary operator: {op}")))
+            }
+            ast::BinaryOperator::Question => {
+                return Err(Error::other(format!("Unsupported binary operator: {op}")))
+            }
+            ast::BinaryOperator::QuestionAnd => {
+                return Err(Error::other(format!("Unsupported binary operator: {op}")))
+            }
+            ast::BinaryOperator::QuestionPipe => {
+                return Err(Error::other(format!("Unsupported binary operator: {op}")))
+            }
         })
     }
 
     fn unary_op(&self, op: &'a ast::UnaryOperator, expr: Result<Expr>) -> Result<Expr> {
         let expr = expr?;
         Ok(match op {
-            ast::UnaryOperator::Plus => todo!(),
+            ast::UnaryOperator::Plus => {
+                return Err(Error::other(format!("Unsupported unary operator: {op}")))
+            }
             ast::UnaryOperator::Minus => Expr::opposite(expr),
             ast::UnaryOperator::Not => Expr::not(expr),
-            ast::UnaryOperator::PGBitwiseNot => todo!(),
-            ast::UnaryOperator::PGSquareRoot => todo!(),
-            ast::UnaryOperator::PGCubeRoot => todo!(),
-            ast::UnaryOperator::PGPostfixFactorial => todo!(),
-            ast::UnaryOperator::PGPrefixFactorial => todo!(),
-            ast::UnaryOperator::PGAbs => todo!(),
+            ast::UnaryOperator::PGBitwiseNot => {
+                return Err(Error::other(format!("Unsupported unary operator: {op}")))
+            }
+            ast::UnaryOperator::PGSquareRoot => {
+                return Err(Error::other(format!("Unsupported unary operator: {op}")))
+            }
+            ast::UnaryOperator::PGCubeRoot => {
+                return Err(Error::other(format!("Unsupported unary operator: {op}")))
+            }
+            ast::UnaryOperator::PGPostfixFactorial => {
+                return Err(Error::other(format!("Unsupported unary operator: {op}")))
+            }
+            ast::UnaryOperator::PGPrefixFactorial => {
+                return Err(Error::other(format!("Unsupported unary operator: {op}")))
+            }
+            ast::UnaryOperator::PGAbs => {
+                return Err(Error::other(format!("Unsupported unary operator: {op}")))
+            }
         })
     }
 
@@ -916,17 +995,35 @@ impl<'a> Visitor<'a, Result<Expr>> for TryIntoExprVisitor<'a> {
                 Expr::val(x)
             }
             ast::Value::SingleQuotedString(v) => Expr::val(v.to_string()),
-            ast::Value::EscapedStringLiteral(_) => todo!(),
-            ast::Value::NationalStringLiteral(_) => todo!(),
-            ast::Value::HexStringLiteral(_) => todo!(),
-            ast::Value::DoubleQuotedString(_) => todo!(),
+            ast::Value::EscapedStringLiteral(_) => {
+                return Err(Error::other(format!("Unsupported literal: {value}")))
+            }
+            ast::Value::NationalStringLiteral(_) => {
+                return Err(Error::other(format!("Unsupported literal: {value}")))
+            }
+            ast::Value::HexStringLiteral(_) => {
+                return Err(Error::other(format!("Unsupported literal: {value}")))
+            }
+            ast::Value::DoubleQuotedString(_) => {
+                return Err(Error::other(format!("Unsupported literal: {value}")))
+            }
             ast::Value::Boolean(b) => Expr::val(*b),
             ast::Value::Null => Expr::val(None),
-            ast::Value::Placeholder(_) => todo!(),
-            ast::Value::DollarQuotedString(_) => todo!(),
-            ast::Value::SingleQuotedByteStringLiteral(_) => todo!(),
-            ast::Value::DoubleQuotedByteStringLiteral(_) => todo!(),
-            ast::Value::RawStringLiteral(_) => todo!(),
+            ast::Value::Placeholder(_) => {
+                return Err(Error::other(format!("Unsupported literal: {value}")))
+            }
+            ast::Value::DollarQuotedString(_) => {
+                return Err(Error::other(format!("Unsupported literal: {value}")))
+            }
+            ast::Value::SingleQuotedByteStringLiteral(_) => {
+                return Err(Error::other(format!("Unsupported literal: {value}")))
+            }
+            ast::Value::DoubleQuotedByteStringLiteral(_) => {
+                return Err(Error::other(format!("Unsupported literal: {value}")))
+            }
+            ast::Value::RawStringLiteral(_) => {
+                return Err(Error::other(format!("Unsupported literal: {value}")))
+            }
         })
     }
 
@@ -1209,14 +1306,18 @@ impl<'a> Visitor<'a, Result<Expr>> for TryIntoExprVisitor<'a> {
 
     fn ceil(&self, expr: Result<Expr>, field: &'a ast::DateTimeField) -> Result<Expr> {
         if !matches!(field, ast::DateTimeField::NoDateTime) {
-            todo!()
+            return Err(Error::other(format!(
+                "Unsupported CEIL to a date-time field: {field}"
+            )));
         }
         Ok(Expr::ceil(expr.clone()?))
     }
 
     fn floor(&self, expr: Result<Expr>, field: &'a ast::DateTimeField) -> Result<Expr> {
         if !matches!(field, ast::DateTimeField::NoDateTime) {
-            todo!()
+            return Err(Error::other(format!(
+                "Unsupported FLOOR to a date-time field: {field}"
+            )));
         }
         Ok(Expr::floor(expr.clone()?))
     }
@@ -1241,7 +1342,11 @@ impl<'a> Visitor<'a, Result<Expr>> for TryIntoExprVisitor<'a> {
             | ast::DataType::Varbinary(_)
             | ast::DataType::Blob(_)
             | ast::DataType::Bytes(_)
-            | ast::DataType::Bytea => todo!(),
+            | ast::DataType::Bytea => {
+                return Err(Error::other(format!(
+                    "Unsupported cast target: {data_type}"
+                )))
+            }
             //Float
             ast::DataType::Numeric(_)
             | ast::DataType::Decimal(_)
@@ -1285,16 +1390,56 @@ impl<'a> Visitor<'a, Result<Expr>> for TryIntoExprVisitor<'a> {
             ast::DataType::Datetime(_) | ast::DataType::Timestamp(_, _) => {
                 Expr::cast_as_date_time(expr.clone()?)
             }
-            ast::DataType::Interval => todo!(),
-            ast::DataType::JSON => todo!(),
-            ast::DataType::Regclass => todo!(),
-            ast::DataType::Custom(_, _) => todo!(),
-            ast::DataType::Array(_) => todo!(),
-            ast::DataType::Enum(_) => todo!(),
-            ast::DataType::Set(_) => todo!(),
-            ast::DataType::Struct(_) => todo!(),
-            ast::DataType::JSONB => todo!(),
-            ast::DataType::Unspecified => todo!(),
+            ast::DataType::Interval => {
+                return Err(Error::other(format!(
+                    "Unsupported cast target: {data_type}"
+                )))
+            }
+            ast::DataType::JSON => {
+                return Err(Error::other(format!(
+                    "Unsupported cast target: {data_type}"
+                )))
+            }
+            ast::DataType::Regclass => {
+                return Err(Error::other(format!(
+                    "Unsupported cast target: {data_type}"
+                )))
+            }
+            ast::DataType::Custom(_, _) => {
+                return Err(Error::other(format!(
+                    "Unsupported cast target: {data_type}"
+                )))
+            }
+            ast::DataType::Array(_) => {
+                return Err(Error::other(format!(
+                    "Unsupported cast target: {data_type}"
+                )))
+            }
+            ast::DataType::Enum(_) => {
+                return Err(Error::other(format!(
+                    "Unsupported cast target: {data_type}"
+                )))
+            }
+            ast::DataType::Set(_) => {
+                return Err(Error::other(format!(
+                    "Unsupported cast target: {data_type}"
+                )))
+            }
+            ast::DataType::Struct(_) => {
+                return Err(Error::other(format!(
+                    "Unsupported cast target: {data_type}"
+                )))
+            }
+            ast::DataType::JSONB => {
+                return Err(Error::other(format!(
+                    "Unsupported cast target: {data_type}"
+                )))
+            }
+            ast::DataType::Unspecified => {
+                return Err(Error::other(format!(
+                    "Unsupported cast target: {data_type}"
+                )))
+            }
         })
     }
 
@@ -1311,7 +1456,11 @@ impl<'a> Visitor<'a, Result<Expr>> for TryIntoExprVisitor<'a> {
             ast::DateTimeField::Dow => Expr::extract_dow(expr.clone()?),
             ast::DateTimeField::Microsecond => Expr::extract_microsecond(expr.clone()?),
             ast::DateTimeField::Millisecond => Expr::extract_millisecond(expr.clone()?),
-            _ => todo!(),
+            _ => {
+                return Err(Error::other(format!(
+                    "Unsupported date-time field: {field}"
+                )))
+            }
         })
     }
 
